@@ -2,6 +2,7 @@ package rules
 
 import (
 	"go/token"
+	"sort"
 	"strings"
 
 	"kmcheck/internal/km"
@@ -29,6 +30,62 @@ func checkAuthBits(c *km.Ctx, s *km.Sem, checkAuth *ssa.Function, rule string) {
 	kmSigned := RS + "getUsernameIfKeymasterSigned"
 	ipRestr := RS + "getUsernameIfIPRestricted"
 	jwtInfo := RS + "getAuthInfoFromAuthJWT"
+	// checkAuth may be split into branch helpers (checkBasicAuth, checkAuthCookie, checkAuthTLSCerts, ...): the
+	// family is checkAuth plus the keymasterd functions it reaches that hand back an *authInfo, the verifiers and
+	// the failure writer excluded
+	famStop := map[*ssa.Function]bool{}
+	for _, n := range []string{"(*RuntimeState).getUsernameIfKeymasterSigned", "(*RuntimeState).getUsernameIfIPRestricted", "(*RuntimeState).getAuthInfoFromAuthJWT", "(*RuntimeState).getAuthInfoFromJWT", "checkUserPassword", "(*RuntimeState).writeFailureResponse", "(*RuntimeState).checkPasswordAttemptLimit"} {
+		if f := c.P.Func("cmd/keymasterd", n); f != nil {
+			famStop[f] = true
+		}
+	}
+	fam := map[*ssa.Function]bool{checkAuth: true}
+	for f := range reachableFrom(c, famStop, checkAuth) {
+		if famStop[f] || f.Pkg == nil || f.Pkg.Pkg.Path() != KMD {
+			continue
+		}
+		res := f.Signature.Results()
+		for i := 0; i < res.Len(); i++ {
+			if km.NamedTypeOf(res.At(i).Type()) == KMD+".authInfo" {
+				fam[f] = true
+			}
+		}
+	}
+	roots := map[*ssa.Function]bool{checkAuth: true}
+	// the required-mask value: checkAuth's parameter, or a helper parameter every family caller binds to it
+	var isReq func(v ssa.Value, depth int) bool
+	isReq = func(v ssa.Value, depth int) bool {
+		v = km.Unwrap(v)
+		if v == ssa.Value(reqParam) {
+			return true
+		}
+		p, ok := v.(*ssa.Parameter)
+		if !ok || depth > 3 || !fam[p.Parent()] || p.Parent() == checkAuth {
+			return false
+		}
+		idx := -1
+		for i, q := range p.Parent().Params {
+			if q == p {
+				idx = i
+			}
+		}
+		n := 0
+		for _, cs := range c.G.Callers[p.Parent()] {
+			if !fam[cs.Caller] {
+				continue
+			}
+			ci, ok := cs.Instr.(ssa.CallInstruction)
+			if !ok {
+				return false
+			}
+			a := km.CallArgs(ci.Common())
+			if idx < 0 || idx >= len(a) || !isReq(a[idx], depth+1) {
+				return false
+			}
+			n++
+		}
+		return n > 0
+	}
 
 	nonEmptyResult := func(callee string, idx int) km.Prim {
 		return km.Prim{Name: "nonempty " + callee, Direct: func(f km.Fact) bool {
@@ -56,9 +113,9 @@ func checkAuthBits(c *km.Ctx, s *km.Sem, checkAuth *ssa.Function, rule string) {
 				return false
 			}
 			var k ssa.Value
-			if km.Unwrap(b.X) == reqParam {
+			if isReq(b.X, 0) {
 				k = b.Y
-			} else if km.Unwrap(b.Y) == reqParam {
+			} else if isReq(b.Y, 0) {
 				k = b.X
 			} else {
 				return false
@@ -106,20 +163,33 @@ func checkAuthBits(c *km.Ctx, s *km.Sem, checkAuth *ssa.Function, rule string) {
 		}
 		return mentionsField(cl.Common().Args[0], "VerifiedChains")
 	}}
-	notExpired := km.Prim{Name: "¬ExpiresAt.Before(now)", Direct: func(f km.Fact) bool {
-		if f.Op != token.ILLEGAL || f.Pol {
+	notExpired := km.Prim{Name: "¬ExpiresAt.Before(now)", Rel: func(f km.Fact, resolve func(ssa.Value) ssa.Value) bool {
+		isNow := func(v ssa.Value) bool {
+			nc, ok := km.Unwrap(resolve(v)).(*ssa.Call)
+			return ok && km.CalleeFull(nc.Common()) == "time.Now"
+		}
+		if f.Op == token.ILLEGAL {
+			cl, ok := f.X.(*ssa.Call)
+			if !ok {
+				return false
+			}
+			a := cl.Common().Args
+			switch km.CalleeFull(cl.Common()) {
+			case "(time.Time).Before": // ¬ExpiresAt.Before(now)
+				return !f.Pol && mentionsField(a[0], "ExpiresAt") && isNow(a[1])
+			case "(time.Time).After": // ExpiresAt.After(now)
+				return f.Pol && mentionsField(a[0], "ExpiresAt") && isNow(a[1])
+			}
 			return false
 		}
-		cl, ok := f.X.(*ssa.Call)
-		if !ok || km.CalleeFull(cl.Common()) != "(time.Time).Before" {
-			return false
+		// time.Until(ExpiresAt) >= 0
+		if f.Op == token.GEQ || f.Op == token.GTR {
+			if cl, ok := f.X.(*ssa.Call); ok && km.CalleeFull(cl.Common()) == "time.Until" && mentionsField(cl.Common().Args[0], "ExpiresAt") {
+				i, ok := km.ConstInt(f.Y)
+				return ok && i == 0
+			}
 		}
-		a := cl.Common().Args
-		if !mentionsField(a[0], "ExpiresAt") {
-			return false
-		}
-		nc, ok := km.Unwrap(a[1]).(*ssa.Call)
-		return ok && km.CalleeFull(nc.Common()) == "time.Now"
+		return false
 	}}
 	levelAccepted := km.Prim{Name: "(AuthType&required)!=0", Direct: func(f km.Fact) bool {
 		if f.Op != token.NEQ {
@@ -132,7 +202,7 @@ func checkAuthBits(c *km.Ctx, s *km.Sem, checkAuth *ssa.Function, rule string) {
 		if !ok || b.Op != token.AND {
 			return false
 		}
-		return (km.Unwrap(b.X) == reqParam && mentionsField(b.Y, "AuthType")) || (km.Unwrap(b.Y) == reqParam && mentionsField(b.X, "AuthType"))
+		return (isReq(b.X, 0) && mentionsField(b.Y, "AuthType")) || (isReq(b.Y, 0) && mentionsField(b.X, "AuthType"))
 	}}
 	userNonEmpty := km.Prim{Name: "authData.Username!=\"\"", Direct: func(f km.Fact) bool {
 		if f.Op != token.NEQ {
@@ -150,7 +220,8 @@ func checkAuthBits(c *km.Ctx, s *km.Sem, checkAuth *ssa.Function, rule string) {
 		var names []string
 		for _, p := range ps {
 			names = append(names, p.Name)
-			if !st.All(func(k km.Conj) bool { return s.Holds(k, p) }) {
+			// locally, or - inside a branch helper - at every call of the helper from the family
+			if ok, _ := s.HoldsOnPathsWithin(in, allPrims(s, p), roots, fam, 4); !ok {
 				missing = append(missing, p.Name)
 			}
 		}
@@ -158,89 +229,175 @@ func checkAuthBits(c *km.Ctx, s *km.Sem, checkAuth *ssa.Function, rule string) {
 		if len(missing) > 0 {
 			found = "not dominated by: " + strings.Join(missing, ", ") + "; state " + clipS(st.String(), 300)
 		}
-		c.R.Add(rule, km.FuncName(checkAuth), construct, posOf(c, in), strings.Join(names, " ∧ "), found, len(missing) == 0)
+		c.R.Add(rule, km.FuncName(in.Parent()), construct, posOf(c, in), strings.Join(names, " ∧ "), found, len(missing) == 0)
 	}
+	// needK: the same for one conjunction of facts (a leaf reached through helper returns)
+	missingIn := func(k km.Conj, ps ...km.Prim) []string {
+		var missing []string
+		for _, p := range ps {
+			if !s.Holds(k, p) {
+				missing = append(missing, p.Name)
+			}
+		}
+		return missing
+	}
+	famFns := sortedFuncs(fam)
 
 	// --- stores into authInfo fields
 	nBits := 0
-	km.Instrs(checkAuth, func(in ssa.Instruction) {
-		st, ok := in.(*ssa.Store)
-		if !ok {
-			return
-		}
-		fa, ok := st.Addr.(*ssa.FieldAddr)
-		if !ok || km.NamedTypeOf(fa.X.Type()) != KMD+".authInfo" {
-			return
-		}
-		field := fieldNameOf(fa)
-		switch field {
-		case "AuthType":
-			bits, plain := orConstBits(st.Val, fa)
-			if !plain {
-				c.R.Add(rule, km.FuncName(checkAuth), "store authInfo.AuthType (unrecognised value)", posOf(c, in), "AuthType is built only by OR-ing credential constants", km.ValStr(st.Val), false)
+	for _, ffn := range famFns {
+		ffn := ffn
+		km.Instrs(ffn, func(in ssa.Instruction) {
+			st, ok := in.(*ssa.Store)
+			if !ok {
 				return
 			}
-			if bits&^(bitPassword|bitX509|bitIP) != 0 {
-				c.R.Add(rule, km.FuncName(checkAuth), "store authInfo.AuthType (foreign bit)", posOf(c, in), "checkAuth itself grants only password / keymaster-certificate / IP-certificate", sprintf("%#x", bits), false)
+			fa, ok := st.Addr.(*ssa.FieldAddr)
+			if !ok || km.NamedTypeOf(fa.X.Type()) != KMD+".authInfo" {
 				return
 			}
-			if bits&bitX509 != 0 {
-				nBits++
-				need(in, "grant AuthTypeKeymasterX509", errNilOf(kmSigned, 2), nonEmptyResult(kmSigned, 0), tlsPresent, chainsPresent, maskTest(bitX509, false))
-			}
-			if bits&bitIP != 0 {
-				nBits++
-				need(in, "grant AuthTypeIPCertificate", errNilOf(ipRestr, 2), errNilOf(ipRestr, 3), tlsPresent, chainsPresent, maskTest(bitIP, true))
-			}
-			if bits&bitPassword != 0 {
-				nBits++
-				need(in, "grant AuthTypePassword", limiter, passwordOK, passwordErrNil, maskTest(bitPassword, true))
-			}
-		case "Username":
-			v := km.Unwrap(st.Val)
-			cl, idx := callRes(v)
-			switch {
-			case cl != nil && km.CalleeFull(cl.Common()) == kmSigned && idx == 0:
-				need(in, "set Username from keymaster certificate", errNilOf(kmSigned, 2), nonEmptyResult(kmSigned, 0))
-			case cl != nil && km.CalleeFull(cl.Common()) == ipRestr && idx == 0:
-				need(in, "set Username from IP certificate", errNilOf(ipRestr, 2), errNilOf(ipRestr, 3))
-			case cl != nil && km.CalleeFull(cl.Common()) == RS+"reprocessUsername":
-				need(in, "set Username from basic-auth", limiter, passwordOK)
-				// and the password was checked for this same value
-				okSame := false
-				km.Instrs(checkAuth, func(i2 ssa.Instruction) {
-					if c2, ok := i2.(*ssa.Call); ok && km.CalleeFull(c2.Common()) == KMD+".checkUserPassword" && km.Unwrap(c2.Common().Args[0]) == v {
-						okSame = true
+			field := fieldNameOf(fa)
+			switch field {
+			case "AuthType":
+				bits, plain := orConstBits(st.Val, fa)
+				if !plain {
+					c.R.Add(rule, km.FuncName(ffn), "store authInfo.AuthType (unrecognised value)", posOf(c, in), "AuthType is built only by OR-ing credential constants", km.ValStr(st.Val), false)
+					return
+				}
+				if bits&^(bitPassword|bitX509|bitIP) != 0 {
+					c.R.Add(rule, km.FuncName(ffn), "store authInfo.AuthType (foreign bit)", posOf(c, in), "checkAuth itself grants only password / keymaster-certificate / IP-certificate", sprintf("%#x", bits), false)
+					return
+				}
+				if bits&bitX509 != 0 {
+					nBits++
+					need(in, "grant AuthTypeKeymasterX509", errNilOf(kmSigned, 2), nonEmptyResult(kmSigned, 0), tlsPresent, chainsPresent, maskTest(bitX509, false))
+				}
+				if bits&bitIP != 0 {
+					nBits++
+					need(in, "grant AuthTypeIPCertificate", errNilOf(ipRestr, 2), errNilOf(ipRestr, 3), tlsPresent, chainsPresent, maskTest(bitIP, true))
+				}
+				if bits&bitPassword != 0 {
+					nBits++
+					need(in, "grant AuthTypePassword", limiter, passwordOK, passwordErrNil, maskTest(bitPassword, true))
+				}
+			case "Username":
+				// where the stored name comes from, followed through helpers that return the normalised name
+				stopAt := func(cl *ssa.Call) bool {
+					n := km.CalleeFull(cl.Common())
+					return n == kmSigned || n == ipRestr || n == RS+"reprocessUsername"
+				}
+				kinds := map[string]bool{}
+				okAll := true
+				var problems []string
+				for _, k := range c.F.At(in) {
+					for _, lf := range s.Leaves(k, ffn, nil, st.Val, stopAt, 3) {
+						cl, idx := callRes(lf.Val)
+						switch {
+						case cl != nil && km.CalleeFull(cl.Common()) == kmSigned && idx == 0:
+							kinds["keymaster certificate"] = true
+						case cl != nil && km.CalleeFull(cl.Common()) == ipRestr && idx == 0:
+							kinds["IP certificate"] = true
+						case cl != nil && km.CalleeFull(cl.Common()) == RS+"reprocessUsername":
+							kinds["basic-auth"] = true
+							// the password was checked for this same value, in the frame that produced it
+							okSame := false
+							km.Instrs(lf.Fn, func(i2 ssa.Instruction) {
+								if c2, ok := i2.(*ssa.Call); ok && km.CalleeFull(c2.Common()) == KMD+".checkUserPassword" && km.Unwrap(c2.Common().Args[0]) == lf.Val {
+									okSame = true
+								}
+							})
+							if !okSame {
+								okAll = false
+								problems = appendUniq(problems, "checkUserPassword was not called with the value stored as Username")
+							}
+							if lf.Fn != ffn {
+								// produced by a helper: the helper's facts carry the limiter and the verdict
+								if m := missingIn(lf.K, limiter, passwordOK); len(m) > 0 {
+									okAll = false
+									problems = appendUniq(problems, "not dominated by: "+strings.Join(m, ", "))
+								}
+							}
+						default:
+							okAll = false
+							problems = appendUniq(problems, "unrecognised source "+km.ValStr(lf.Val))
+						}
 					}
-				})
-				c.R.Add(rule, km.FuncName(checkAuth), "basic-auth user is the one whose password was checked", posOf(c, in), "checkUserPassword(user,…) and authInfo.Username use the same normalised value", sprintf("same value=%v", okSame), okSame)
-			default:
-				c.R.Add(rule, km.FuncName(checkAuth), "set Username (unrecognised source)", posOf(c, in), "user name comes from a verifier result", km.ValStr(st.Val), false)
+				}
+				switch {
+				case kinds["keymaster certificate"] && len(kinds) == 1:
+					need(in, "set Username from keymaster certificate", errNilOf(kmSigned, 2), nonEmptyResult(kmSigned, 0))
+				case kinds["IP certificate"] && len(kinds) == 1:
+					need(in, "set Username from IP certificate", errNilOf(ipRestr, 2), errNilOf(ipRestr, 3))
+				case kinds["basic-auth"] && len(kinds) == 1:
+					need(in, "set Username from basic-auth", limiter, passwordOK)
+					c.R.Add(rule, km.FuncName(ffn), "basic-auth user is the one whose password was checked", posOf(c, in), "checkUserPassword(user,…) and authInfo.Username use the same normalised value", sprintf("%v", problems), okAll)
+				default:
+					c.R.Add(rule, km.FuncName(ffn), "set Username (unrecognised source)", posOf(c, in), "user name comes from one verifier's result", sprintf("sources=%v %v", kinds, problems), false)
+				}
 			}
-		}
-	})
+		})
+	}
 	if nBits < 2 {
 		c.R.AnchorLost(rule, sprintf("credential-bit grants in checkAuth (found %d, expected at least 2)", nBits))
 	}
 
 	checkIPRestrictedHelper(c, s, rule)
 
-	// --- success returns
+	// --- success returns (followed through the branch helpers)
+	classify := func(lf km.Leaf) (string, []km.Prim) {
+		a, isAlloc := lf.Val.(*ssa.Alloc)
+		switch {
+		case isAlloc && allocStoresWhole(a, jwtInfo):
+			return "session cookie", []km.Prim{errNilOf(jwtInfo, 1), notExpired, levelAccepted}
+		case isAlloc && allocHasFieldStoreOf(a, "AuthType", bitPassword):
+			return "basic auth", []km.Prim{limiter, passwordOK, passwordErrNil, maskTest(bitPassword, true)}
+		case isAlloc:
+			return "client certificate", []km.Prim{tlsPresent, chainsPresent, userNonEmpty, maskTest(bitX509, false)}
+		}
+		return "unrecognised credential branch", nil
+	}
 	for _, rc := range s.RetCases(checkAuth) {
 		if len(rc.Results) != 2 || !km.IsNilConst(rc.Results[1]) {
 			continue
 		}
-		v := km.Unwrap(rc.Results[0])
-		a, isAlloc := v.(*ssa.Alloc)
-		switch {
-		case isAlloc && allocStoresWhole(a, jwtInfo):
-			need(rc.Ret, "success return (session cookie)", errNilOf(jwtInfo, 1), notExpired, levelAccepted)
-		case isAlloc && allocHasFieldStoreOf(a, "AuthType", bitPassword):
-			need(rc.Ret, "success return (basic auth)", limiter, passwordOK, passwordErrNil, maskTest(bitPassword, true))
-		case isAlloc:
-			need(rc.Ret, "success return (client certificate)", tlsPresent, chainsPresent, userNonEmpty, maskTest(bitX509, false))
-		default:
-			c.R.Add(rule, km.FuncName(checkAuth), "success return (unrecognised credential branch)", posOf(c, rc.Ret), "every success return belongs to the certificate, basic-auth or cookie branch", km.ValStr(v), false)
+		byKind := map[string][]string{}
+		for _, k := range rc.State {
+			for _, lf := range s.Leaves(k, checkAuth, rc.Ret, rc.Results[0], nil, 3) {
+				kind, ps := classify(lf)
+				if ps == nil {
+					byKind[kind] = appendUniq(byKind[kind], km.ValStr(lf.Val))
+					continue
+				}
+				if _, seen := byKind[kind]; !seen {
+					byKind[kind] = nil
+				}
+				for _, p := range ps {
+					if s.Holds(lf.K, p) {
+						continue
+					}
+					// a fact established in checkAuth before the helper was called is in the union already; a
+					// mask test made by checkAuth around the call likewise
+					byKind[kind] = appendUniq(byKind[kind], p.Name)
+				}
+			}
+		}
+		var kinds []string
+		for kd := range byKind {
+			kinds = append(kinds, kd)
+		}
+		sort.Strings(kinds)
+		for _, kd := range kinds {
+			missing := byKind[kd]
+			sort.Strings(missing)
+			if kd == "unrecognised credential branch" {
+				c.R.Add(rule, km.FuncName(checkAuth), "success return (unrecognised credential branch)", posOf(c, rc.Ret), "every success return belongs to the certificate, basic-auth or cookie branch", strings.Join(missing, ", "), false)
+				continue
+			}
+			found := "all verifier facts dominate"
+			if len(missing) > 0 {
+				found = "not dominated by: " + strings.Join(missing, ", ")
+			}
+			c.R.Add(rule, km.FuncName(checkAuth), "success return ("+kd+")", posOf(c, rc.Ret), "the verifier facts of the "+kd+" branch", found, len(missing) == 0)
 		}
 	}
 }
